@@ -140,7 +140,7 @@ def horizon_arg(h):
     if h["kind"] == "num":
         return h["val"]
     if h["kind"] == "free":
-        return rockit.FreeTime(h["guess"])
+        return rockit.FreeTime(h.get("declared_guess", h["guess"]))
     return None  # param / var: assigned after construction
 
 
